@@ -22,9 +22,23 @@ DEFAULT_VERSIONS = {0: (0, 2), 1: (0, 2), 2: (0, 0), 3: (0, 0), 8: (0, 2), 9: (0
                     12: (0, 0), 13: (0, 0), 14: (0, 0), 18: (0, 0)}
 
 
+def version_table(produce_max, fetch_max, nkeys=21):
+    """An ApiVersions table as a newer broker sends it: every key 0..nkeys-1 in order, minimum 0, produce and fetch
+    reaching further than this simulated broker (and afkak) implement.  A client may only pick what both sides have."""
+    out = []
+    for k in range(nkeys):
+        lo, hi = DEFAULT_VERSIONS.get(k, (0, 0))
+        if k == 0:
+            hi = produce_max
+        elif k == 1:
+            hi = fetch_max
+        out.append([k, lo, hi])
+    return out
+
+
 class LogEntry(object):
     """A stored unit: one plain message or one compressed wrapper with its inner messages."""
-    __slots__ = ("msgs", "magic", "wrapper", "raw", "corrupt", "raw_clean", "heal", "rel0")
+    __slots__ = ("msgs", "magic", "wrapper", "raw", "corrupt", "raw_clean", "heal", "rel0", "attrs")
 
     def __init__(self, msgs, magic, wrapper, raw=None):
         self.msgs = msgs
@@ -33,6 +47,7 @@ class LogEntry(object):
         self.raw = raw  # pre-encoded native bytes (set when corrupted or nested by the generator)
         self.corrupt = False
         self.rel0 = 0
+        self.attrs = 0  # attribute bits beyond the codec (format 1: bit 3 = log-append time) carried by the (inner) messages
 
     @property
     def first(self):
@@ -48,9 +63,9 @@ class LogEntry(object):
         mg = self.magic if magic is None else magic
         if self.wrapper:
             ms = [Msg(m.offset, m.key, m.value, mg, m.timestamp if mg == 1 else None) for m in self.msgs]
-            return kwire.encode_wrapper(ms, mg, rel0=self.rel0 if mg == 1 else 0)
+            return kwire.encode_wrapper(ms, mg, rel0=self.rel0 if mg == 1 else 0, inner_attrs=self.attrs if mg == 1 else 0)
         m = self.msgs[0]
-        return kwire.encode_entry(m.offset, kwire.encode_message(mg, 0, m.key, m.value, m.timestamp if mg == 1 else None))
+        return kwire.encode_entry(m.offset, kwire.encode_message(mg, self.attrs if mg == 1 else 0, m.key, m.value, m.timestamp if mg == 1 else None))
 
 
 class Partition(object):
